@@ -8,13 +8,18 @@ CLAIMED = {
    text="Contract proof (CBMC, full input domain, loop-free) on the real __hash__/__eq__ text of the leaf number classes "
         "(RealDouble, ComplexDouble, Integer, Rational, Complex, NaN), hash_combine*, Basic::hash and eq: eq(a,b) implies equal "
         "hash for every bit pattern of the data members, including signed zeros and NaNs, same-object and cached-hash cases. "
-        "Composite classes are outside the functions under contract (unverified remainder, DESIGN §4).",
+        "Composite classes Pow, Interval, TwoArgBasic<> (all relationals and two-argument functions), OneArgFunction, Complement, Contains (and unified_eq on RCP operands) are "
+        "proved as callers against the CALLEE CONTRACT of their children (abstract children with eq <=> equal rank, equal rank => equal hash; any sharing): eq implies equal hash, hash cache "
+        "consistent. Add::__hash__/__eq__ over a two-term dictionary is a bounded stand-in (hash_t narrowed to 16 bits; not counted as proved). Mul, multi-argument functions, other sets, "
+        "booleans, polynomials and matrices are not under contract.",
    note="Trusted: stub GMP integer/rational (==, <, mp_get_*), std::complex ==, hand-written dispatch for virtual calls, extraction rules; CBMC tool chain.",
    tech="contract-based deductive verification with CBMC on mechanically extracted function text (route F: loop-free, full domain)"),
  "C02": dict(cat="proof", design="§4 C02",
    text="Contract proof (CBMC, full input domain) on the real compare/__eq__ of the leaf number classes and Basic::__cmp__: result in "
         "{-1,0,1}, zero iff eq, antisymmetric, transitive, for every triple of leaf objects of any classes. NaN doubles violate the "
-        "axioms (known finding C02_NAN_DOUBLE): those obligations are proved on the complement. Composite classes not under contract.",
+        "axioms (known finding C02_NAN_DOUBLE): those obligations are proved on the complement. The compare methods of Pow, Interval, TwoArgBasic<>, OneArgFunction, Complement, Contains "
+        "(and unified_compare on RCP operands) are proved as callers against the children's contract (children totally ordered by an abstract rank consistent with eq, hash collisions allowed): "
+        "the parent is again a three-way total order consistent with eq. Add/Mul, containers (ordered_compare), other classes not under contract.",
    note="Trusted: as C01; rational '<' is an assumed strict total order consistent with == (GMP).",
    tech="contract-based deductive verification with CBMC on mechanically extracted function text (route F: loop-free, full domain)"),
  "C06": dict(cat="proof", design="§4 C06",
